@@ -244,6 +244,11 @@ func (h *fileHandler) upload(oid string, size int64, path string) (string, strin
 		// Already there, nothing to do.
 		return oid, "", nil
 	}
+	// The remote's object store is what other clones download from; only
+	// store content that actually hashes to the OID it is stored under.
+	if err := tools.VerifyFileHash(oid, path); err != nil {
+		return oid, "", err
+	}
 	dest, err := h.remoteConfig.Filesystem().ObjectPath(oid)
 	if err != nil {
 		return oid, "", err
